@@ -206,7 +206,7 @@ def check_text_union(prog, rep):
                 if mm is not None and any(n[0] == "call" and n[1].endswith("::lines") for n in walk(mm["?src"])):
                     return ("lines-item", _baseline_norm(base))
                 # closure parameter of a combinator over self.lines()
-                if g.kind == "closure" and item[0] == "param" and item[1] == 2:
+                if g.kind == "closure" and item[0] == "param" and item[1] >= 2:   # for_each: |item|, try_fold: |acc, item|
                     parent = prog.fns.get(g.parent_fn)
                     if parent is not None:
                         po = Origins(parent)
@@ -214,7 +214,11 @@ def check_text_union(prog, rep):
                             pt = parent.body["blocks"][bj]["t"]
                             if pt and pt["k"] == "call" and pt["f"].get("name") in ("map", "for_each", "try_for_each", "try_fold", "fold"):
                                 pa = po.term_args(bj)
-                                if any(n[0] == "agg" and n[1] == "closure:" + g.id for x in pa for n in walk(x)) and any(n[0] == "call" and n[1].endswith("::lines") for n in walk(pa[0])):
+                                clo = [n for x in pa for n in walk(x) if n[0] == "agg" and n[1] == "closure:" + g.id]
+                                if clo and any(n[0] == "call" and n[1].endswith("::lines") for n in walk(pa[0])):
+                                    caps = clo[0][2]
+                                    from mirq.origin import subst
+                                    base = subst(base, lambda n: strip_refs(caps[n[1]]) if n[0] == "upvar" and n[1] < len(caps) and caps[n[1]][0] != "param" else None)
                                     return ("lines-item", _baseline_norm(base))
                 return ("other", show(item, maxd=4))
         return None
